@@ -140,6 +140,14 @@ TOPLEVEL = [
     ("unused-function", "fn unused17(x: u8) -> u8 { x }", ""),
     ("unused-function", "fn ua17(x: u8) -> u8 { ub17(x) }\nfn ub17(x: u8) -> u8 { x }", ""),
     ("pub-without-parameters", "pub fn noparams17() -> u8 { 1u8 }", ""),
+    ("pub-without-parameters", "pub fn noparams17() -> u8 { 1u8 }", "let bad = noparams17();"),
+    ("pub-without-parameters", "pub fn noparams17() -> u8 { 1u8 }\nfn via17(x: u8) -> u8 { x ^ noparams17() }", "let bad = via17(w17a);"),
+    ("pub-without-parameters", "pub fn noparams17() -> u8 { 1u8 }\npub fn other17(x: u8) -> u8 { x ^ noparams17() }", ""),
+    ("pub-without-parameters", "pub fn noparams17() -> u8 { via17(1u8) }\nfn via17(x: u8) -> u8 { x }", "let bad = via17(w17a);"),
+    ("unused-function", "fn unused17() -> u8 { 1u8 }", ""),
+    ("unused-function", "pub fn noparams17() -> u8 { unused17(1u8) }\nfn unused17(x: u8) -> u8 { x }", ""),
+    ("recursion", "fn r17(x: u8) -> u8 { let y = if x == 0u8 { 0u8 } else { r17(0u8) }; y }", "let bad = r17(w17a);"),
+    ("recursion", "pub fn r17(x: u8) -> u8 { r17(x) }", ""),
     ("return-type", "fn q17(x: u8) -> u16 { x }", "let bad = q17(w17a);"),
     ("return-type", "fn q17(x: u8) -> bool { x }", "let bad = q17(w17a);"),
     ("return-type", "fn q17(x: u8) -> u8 { let y = x; }", "let bad = q17(w17a);"),
